@@ -203,10 +203,23 @@ def print_probe(run_, prog, out, prop):
     from ..runner import Finding
 
     probes = prog.get("probes") or []
+    grouped_handles = [st["out"] for st in prog["steps"] if st["verb"] == "group_by"]
     for be, renv in out.real_env.items():
-        for h in probes[-2:]:
+        targets = [(h, out.frames.get((be, h))) for h in probes[-2:]]
+        if prop == "C11" and be == "pol":
+            # grouped tables are tables too: their printed form must show the same columns and row count
+            for h in grouped_handles[-2:]:
+                tbl = renv.get(h)
+                if tbl is None or not tbl._cache.partition_by:
+                    continue
+                try:
+                    targets.append((h, tbl >> pdt.ungroup() >> pdt.export(pdt.Polars())))
+                    run_.counters["print_probes_grouped"] += 1
+                except Exception:  # noqa: BLE001
+                    continue
+        M.SAN.drain()
+        for h, df in targets:
             tbl = renv.get(h)
-            df = out.frames.get((be, h))
             if tbl is None or df is None:
                 continue
             pre = M.fingerprint_table(tbl)
@@ -216,6 +229,7 @@ def print_probe(run_, prog, out, prop):
                     text = repr(tbl)
                     html = tbl._repr_html_()
                     tbl >> pdt.show_query()
+                    tbl >> pdt.show()
                     cols = list(tbl)
                     if cols and not tbl._cache.partition_by:
                         repr(cols[0])
@@ -227,16 +241,26 @@ def print_probe(run_, prog, out, prop):
             post = M.fingerprint_table(tbl)
             d = M.diff_nodes(pre["nodes"], post["nodes"])
             if d or pre["cache"] != post["cache"] or pre["ast_root"] != post["ast_root"]:
-                out.findings.append(Finding("san:I4", be, h, f"repr / _repr_html_ / show_query / repr(col) changed the table: {M._short(d)}", verb="repr"))
+                out.findings.append(Finding("san:I4", be, h, f"repr / _repr_html_ / show_query / show / repr(col) changed the table: {M._short(d)}", verb="repr"))
             if prop == "C11" and be == "pol":
                 m = re.search(r"shape: \((\d+), (\d+)\)", text)
                 mh = re.search(r"shape: \((\d+), (\d+)\)", html)
-                for name, mm in (("print", m), ("html", mh)):
+                for name, mm, body in (("print", m, text), ("html", mh, html)):
                     if mm is None:
+                        # a Polars-backed table prints its rows: no shape line means the printed form carries no columns at all
+                        out.findings.append(Finding("meta:" + be, be, h, f"{name} form of the table has no shape line: {body[:160]!r}", verb="repr"))
                         continue
                     run_.counters["shape_lines_checked"] += 1
                     if (int(mm.group(1)), int(mm.group(2))) != (df.height, df.width) or int(mm.group(2)) != len(tbl):
                         out.findings.append(Finding("meta:" + be, be, h, f"{name} shape line {mm.group(0)} vs frame ({df.height}, {df.width}), len(tbl)={len(tbl)}", verb="repr"))
+                # header row of the printed frame / of the HTML table = exported names in order (when nothing is elided)
+                hdr = re.findall(r"<th>(.*?)</th>", html)
+                if hdr and "&hellip;" not in html and "…" not in "".join(hdr):
+                    import html as _html
+
+                    run_.counters["html_headers_checked"] += 1
+                    if [_html.unescape(x) for x in hdr] != list(df.columns):
+                        out.findings.append(Finding("meta:" + be, be, h, f"HTML header {hdr} != exported names {list(df.columns)}", verb="repr"))
     for v in M.SAN.drain():
         out.findings.append(Finding("san:" + v["inv"], "pol", None, v["detail"], verb=v["verb"]))
 
